@@ -56,7 +56,12 @@ class Undefined:
         object.__setattr__(self, "_n", name)
 
     def _boom(self, *a, **k):
-        raise NameError("name %r is not bound on this path (loop-local temporary read after the cut)" % self._n)
+        # the loop body reads a loop-local variable before assigning it on this path: in the real run its value would be
+        # the one left by an EARLIER iteration, about which the loop contract says nothing.  That is a gap of the contract
+        # (declare the variable's type in the loop spec so that it is havocked), not a statement about the code.
+        raise Undecided("contract not anchored: the loop body reads the loop-local variable %r before assigning it on this "
+                        "path (value carried over from an earlier iteration); the loop contract has to declare it"
+                        % self._n)
 
     __getattr__ = __call__ = __add__ = __radd__ = __mul__ = __rmul__ = __sub__ = __rsub__ = _boom
     __lt__ = __le__ = __gt__ = __ge__ = __bool__ = __float__ = __iter__ = __getitem__ = _boom
